@@ -12,5 +12,5 @@ CONSTANTS
   MaxDetach = 1
   MaxEnv = 6
   NPS = 7
-  MaxFail = 3
+  MaxFail = 0
 CHECK_DEADLOCK FALSE
